@@ -515,3 +515,74 @@ pub fn long_run_pair(rng: &mut Rng, run: usize) -> (Vec<u32>, Vec<u32>) {
         (b, a)
     }
 }
+
+/// like `asymmetric_replace` but every item is distinct (no randomness): head / tail common,
+/// `l1` old items replaced by `l2` fresh ones
+pub fn asymmetric_replace_distinct(head: usize, tail: usize, l1: usize, l2: usize) -> (Vec<u32>, Vec<u32>) {
+    let h: Vec<u32> = (0..head as u32).map(|i| 1_000_000 + i).collect();
+    let t: Vec<u32> = (0..tail as u32).map(|i| 2_000_000 + i).collect();
+    let mut a = h.clone();
+    a.extend((0..l1 as u32).map(|i| 10_000_000 + i));
+    a.extend_from_slice(&t);
+    let mut b = h;
+    b.extend((0..l2 as u32).map(|i| 20_000_000 + i));
+    b.extend_from_slice(&t);
+    (a, b)
+}
+
+/// `for_each_script` for an arbitrary "equal" relation between old index i and new index j
+pub fn for_each_script_by(la: usize, lb: usize, eq: &dyn Fn(usize, usize) -> bool, f: &mut dyn FnMut(&[Step])) {
+    fn rec(la: usize, lb: usize, eq: &dyn Fn(usize, usize) -> bool, i: usize, j: usize, cur: &mut Vec<Step>, f: &mut dyn FnMut(&[Step])) {
+        if i == la && j == lb {
+            f(cur);
+            return;
+        }
+        let mut l = 0;
+        while i + l < la && j + l < lb && eq(i + l, j + l) {
+            l += 1;
+            cur.push(Step::Eq(i, j, l));
+            rec(la, lb, eq, i + l, j + l, cur, f);
+            cur.pop();
+        }
+        for l in 1..=(la - i) {
+            cur.push(Step::Del(i, l, j));
+            rec(la, lb, eq, i + l, j, cur, f);
+            cur.pop();
+        }
+        for l in 1..=(lb - j) {
+            cur.push(Step::Ins(i, j, l));
+            rec(la, lb, eq, i, j + l, cur, f);
+            cur.pop();
+        }
+    }
+    let mut cur = Vec::new();
+    rec(la, lb, eq, 0, 0, &mut cur, f);
+}
+
+/// `rand_script` for an arbitrary "equal" relation
+pub fn rand_script_by(rng: &mut Rng, la: usize, lb: usize, eq: &dyn Fn(usize, usize) -> bool) -> Vec<Step> {
+    let (mut i, mut j) = (0, 0);
+    let mut steps = Vec::new();
+    let eq_bias = rng.range(1, 9);
+    while i < la || j < lb {
+        let mut run = 0;
+        while i + run < la && j + run < lb && eq(i + run, j + run) {
+            run += 1;
+        }
+        if run > 0 && rng.below(10) < eq_bias {
+            let l = if rng.chance(1, 2) { run } else { 1 + rng.below(run) };
+            steps.push(Step::Eq(i, j, l));
+            i += l;
+            j += l;
+        } else if i < la && (j >= lb || rng.chance(1, 2)) {
+            let l = 1 + rng.below((la - i).min(3));
+            steps.push(Step::Del(i, l, j));
+            i += l;
+        } else if j < lb {
+            let l = 1 + rng.below((lb - j).min(3));
+            steps.push(Step::Ins(i, j, l));
+            j += l;
+        }
+    }
+    steps
+}
